@@ -10,6 +10,81 @@ def q(deadline=60, watchdog=600, **kw):
     return d
 
 
+import json as _json
+import os as _os
+import subprocess as _sp
+import time as _time
+
+_ROOT = _os.path.dirname(_os.path.abspath(__file__))
+
+
+def miri_tt(prop, tier, seed, n_procs, cases_per_proc, log, timeout):
+    """toktrie-only scenarios of the C16 core monitor under Miri (UB + data-race interpreter)."""
+    d = _os.path.join(_ROOT, "harness_tt")
+    if not _os.path.exists(_os.path.join(d, "Cargo.lock")):
+        import shutil
+        shutil.copy("/repo/Cargo.lock", _os.path.join(d, "Cargo.lock"))
+    env = dict(_os.environ)
+    env.update({"CARGO_NET_OFFLINE": "true", "CARGO_TARGET_DIR": _os.path.join(d, "target-miri"), "MIRIFLAGS": "-Zmiri-disable-isolation"})
+    t0 = _time.time()
+    b = _sp.run(["cargo", "+nightly", "miri", "run", "--offline", "--", str(seed), "0", "0"], cwd=d, env=env, stdout=_sp.PIPE, stderr=_sp.STDOUT, text=True)
+    if b.returncode != 0:
+        log("miri build/run failed: " + b.stdout[-1500:])
+        return {"counters": {"inconclusive": 1, "inconclusive.miri_unavailable": 1}}
+    log(f"miri warm-up {_time.time() - t0:.0f}s")
+    work = _os.path.join(_ROOT, ".work")
+    _os.makedirs(work, exist_ok=True)
+    procs = []
+    for k in range(n_procs):
+        out = _os.path.join(work, f"{prop}.miri.{k}.json")
+        if _os.path.exists(out):
+            _os.remove(out)
+        lo = 5_000_000 + k * cases_per_proc
+        errp = _os.path.join(work, f"{prop}.miri.{k}.err")
+        p = _sp.Popen(["cargo", "+nightly", "miri", "run", "--offline", "--", str(seed), str(lo), str(lo + cases_per_proc), out], cwd=d, env=env,
+                      stdout=_sp.DEVNULL, stderr=open(errp, "w"))
+        procs.append((p, out, errp, lo))
+    res = {"counters": {}, "violations": [], "samples": []}
+    deadline = _time.time() + timeout
+    for p, out, errp, lo in procs:
+        try:
+            p.wait(timeout=max(1, deadline - _time.time()))
+        except _sp.TimeoutExpired:
+            p.kill()
+            p.wait()
+            res["counters"]["inconclusive"] = res["counters"].get("inconclusive", 0) + 1
+            res["counters"]["inconclusive.miri_watchdog"] = res["counters"].get("inconclusive.miri_watchdog", 0) + 1
+            continue
+        err = open(errp).read()
+        if "Undefined Behavior" in err or "error: unsupported operation" in err or (p.returncode != 0 and "panicked" not in err):
+            first = [l for l in err.splitlines() if "error" in l.lower()][:3]
+            res["violations"].append({"property": prop, "kind": "miri_undefined_behavior", "tags": ["miri"],
+                                      "detail": {"first_lines": first, "stderr_tail": err[-3000:]},
+                                      "replay": {"seed": seed, "case": lo, "tier": tier, "args": []}})
+            continue
+        if p.returncode != 0:
+            res["violations"].append({"property": prop, "kind": "miri_run_panicked", "tags": ["miri"], "detail": {"stderr_tail": err[-3000:]},
+                                      "replay": {"seed": seed, "case": lo, "tier": tier, "args": []}})
+            continue
+        try:
+            dd = _json.load(open(out))
+        except Exception:
+            continue
+        for k2, v in dd["counters"].items():
+            if k2.startswith("violations"):
+                continue
+            res["counters"]["miri." + k2] = res["counters"].get("miri." + k2, 0) + v
+        res["violations"].extend(dd["violations"])
+    res["counters"]["miri.processes"] = n_procs
+    return res
+
+
+def post_c16(prop, tier, seed, results, build, log):
+    if tier == "quick":
+        return miri_tt(prop, tier, seed, 8, 2, log, 600)
+    return miri_tt(prop, tier, seed, 16, 60, log, 3600)
+
+
 PROPS = {
     "C01": {
         "eval_counter": "token_checks",
@@ -203,5 +278,28 @@ PROPS = {
         "assumptions": ["TokenParser API used directly so that the precise StopReason is visible"],
         "quick": {"runs": [q(deadline=50)], "floor": {"cases": 2500, "states": 30000, "distinct_nontrivial": 1500, "reference_liveness_checks": 5000}},
         "thorough": {"runs": [q(deadline=1800, watchdog=5400)], "floor": {"cases": 50000, "states": 600000}},
+    },
+    "C16": {
+        "post": post_c16,
+        "eval_counter": "tokens_compared",
+        "case_counter": "cases",
+        "rule": "model-based scenarios, even idx = trie, odd idx = token set. Trie: random vocabulary (2..8 letter alphabets so tokens chain "
+                "as prefixes, duplicates under two ids, empty entries, 256-way fan-out, tokens up to 300 bytes, marker-prefixed tokens); "
+                "token/token_id/token_id_at_bytes/token_len/prefix_token_id/all_prefixes/all_subtokens/has_extensions/greedy_tokenize "
+                "against a Vec<Vec<u8>> model; add_bias and has_valid_extensions with random table-driven DFAs (own Recognizer with a "
+                "stack monitor: no underflow, depth back to 0 at trie_finished, depth <= longest token) and random start prefixes against "
+                "per-token evaluation; filter(m) vs from(filtered words); every returned mask checked on the RAW words for bits >= vocab. "
+                "Token set: random programs of set/allow_range/negated/or/and/sub/or_minus/set_all/resize/trim_trailing_zeros/... on sizes "
+                "0,1,31,32,33,63,64,65,...,1000 against a BTreeSet, observed after every op through to_list/iter/num_set/first_bit_set/"
+                "iter_unset_entries/iter_entries/get/write_to and raw words. Adapters: synthetic byte-level and byte-fallback "
+                "tokenizer.json (all 256 byte code points through an independently coded bytes<->unicode table, <0xNN>, replaced space, "
+                "special / non-special added tokens) through toktrie_hf_tokenizers and token_bytes_from_tokenizer_json; tiktoken ranks with "
+                "holes; tokenize_bytes(text) concatenation == text for random text incl. invalid UTF-8. evaluations = (walk, token) "
+                "comparisons of add_bias against the model. Non-trivial = walk whose mask has >=2 and <|V| tokens / token-set program on a "
+                "size >=31 ending non-empty / adapter document; distinct by content hash.",
+        "assumptions": ["asan / miri variants run the same scenarios (toktrie-only part under Miri)"],
+        "quick": {"runs": [q(deadline=24), dict(q(deadline=15), variant="chk")], "floor": {"cases": 3000, "distinct_nontrivial": 1500, "add_bias_walks": 5000, "svob_checks": 10000, "tokenize_roundtrips": 1000, "miri.cases": 8}},
+        "thorough": {"runs": [q(deadline=900, watchdog=3600), dict(q(deadline=600, watchdog=3600), variant="chk"), dict(q(deadline=600, watchdog=3600), variant="asan")],
+                     "floor": {"cases": 100000, "distinct_nontrivial": 30000}},
     },
 }
